@@ -45,7 +45,7 @@ def run(ctx):
     ctx.cov.update({
         "evaluations": int(tot.get("evaluations", 0)), "distinct_nontrivial": int(first.get("evaluations", 0)),
         "rule": "for every dump D of the serialisable catalogue (quick %d stacks): EVERY proper prefix D[0..k); every word the E7 automaton labels as header/footer magic, tag or float width x replacement alphabet {0, ~0, w^1, w^0x80000000, w^0x10000, w+-0x20000000, "
-                "the two magics, every known layer tag and its footer form; width in {0,1,2,4,8,16,~0}} (skipped and counted when the damaged stream is still grammatical for the reader); every other catalogue stack's dump that the reader's grammar rejects "
+                "the two magics, every known layer tag and its footer form; width in {0..13,15,16,17,24,32,64,~0, byte-shifted forms}} (skipped and counted when the damaged stream is still grammatical for the reader); every other catalogue stack's dump that the reader's grammar rejects "
                 "(format-compatible writers are counted, not demanded to throw); a stream that stops delivering at the n-th read for every n below the read count of a successful load; each case must end in an exception - a returned field, abort, signal, "
                 "hang (alarm) or memcheck error is a violation; three build/oracle combinations: assert-enabled -O1 ASan+UBSan, -O2 NDEBUG, -O2 NDEBUG under valgrind memcheck (every %d-th case); distinct_nontrivial = distinct fault cases of one build"
                 % (len(stacks), 7 if thorough else 61),
